@@ -174,11 +174,20 @@ def src2rec(s):
     return {"t": s[0], "n": int(s[2:])}
 
 
-def convert_events(evs):
-    """Driver events -> trace records for Trace_Mtbl (keys/values as integer arrays, sources as records)."""
+def convert_events(evs, attach_calls=True):
+    """Driver events -> trace records for Trace_Mtbl (keys/values as integer arrays, sources as records).
+    MergeCall lines logged by the merge callback between two API events are attached to the API event that
+    follows them (field calls): they happened during that call."""
     out = []
+    pending_calls = []
     for e in evs:
         e = dict(e)
+        if attach_calls and e.get("e") == "MergeCall":
+            pending_calls.append({"m": e["m"], "k": hex2ints(e["k"]), "a": val2ints(e["a"]), "b": val2ints(e["b"]), "fail": e["fail"]})
+            continue
+        if attach_calls and pending_calls and e.get("e") in ("Next", "Seek", "Open", "SIter", "SAdd", "SWrite", "SrcWrite", "Close"):
+            e["calls"] = pending_calls
+            pending_calls = []
         for f in ("k", "k0", "k1"):
             if f in e and isinstance(e[f], str):
                 e[f] = hex2ints(e[f])
